@@ -341,24 +341,26 @@ class StreamableHTTPTransport(Transport):
 
                     if not line:
                         # Empty line marks end of event
-                        if current_event and event_data:
+                        if event_data:
                             await self._process_sse_event(
-                                current_event, event_data, message_id
+                                current_event or "message", event_data, message_id
                             )
                         current_event = None
                         event_data = []
                         continue
 
                     # Parse SSE format
-                    if line.startswith("event: "):
-                        current_event = line[7:].strip()
-                    elif line.startswith("data: "):
-                        data = line[6:]  # Keep formatting
-                        event_data.append(data)
+                    field, value = self._parse_sse_line(line)
+                    if field == "event":
+                        current_event = value.strip()
+                    elif field == "data":
+                        event_data.append(value)  # Keep formatting
 
             # Process any remaining event
-            if current_event and event_data:
-                await self._process_sse_event(current_event, event_data, message_id)
+            if event_data:
+                await self._process_sse_event(
+                    current_event or "message", event_data, message_id
+                )
 
         except Exception as e:
             logger.error(f"Error processing SSE response: {e}")
@@ -369,9 +371,25 @@ class StreamableHTTPTransport(Transport):
             }
             await self._route_response(error_response)
 
+    @staticmethod
+    def _parse_sse_line(line: str) -> Tuple[Optional[str], str]:
+        """Split an SSE line into (field, value) per the event-stream format.
+
+        Comment lines yield (None, ""); a single leading space of the value is
+        optional and removed; a line without a colon is a field with an empty value.
+        """
+        if line.startswith(":"):
+            return None, ""
+        field, _, value = line.partition(":")
+        if value.startswith(" "):
+            value = value[1:]
+        return field, value
+
     async def _process_sse_text(self, text: str, message_id: str) -> None:
         """Process SSE text that's already fully loaded."""
         try:
+            if text.startswith("\ufeff"):
+                text = text[1:]  # A leading byte order mark is not part of the stream
             lines = text.split("\n")
             current_event = None
             event_data: list[str] = []
@@ -380,25 +398,27 @@ class StreamableHTTPTransport(Transport):
                 line = line.rstrip("\r")
 
                 if not line:
-                    # Empty line marks end of event
-                    if current_event and event_data:
+                    # Empty line marks end of event; the event type defaults to "message"
+                    if event_data:
                         await self._process_sse_event(
-                            current_event, event_data, message_id
+                            current_event or "message", event_data, message_id
                         )
                     current_event = None
                     event_data = []
                     continue
 
-                # Parse SSE format
-                if line.startswith("event: "):
-                    current_event = line[7:].strip()
-                elif line.startswith("data: "):
-                    data = line[6:]  # Keep formatting
-                    event_data.append(data)
+                # Parse SSE format ("field:value" with an optional space after the colon)
+                field, value = self._parse_sse_line(line)
+                if field == "event":
+                    current_event = value.strip()
+                elif field == "data":
+                    event_data.append(value)  # Keep formatting
 
             # Process any remaining event
-            if current_event and event_data:
-                await self._process_sse_event(current_event, event_data, message_id)
+            if event_data:
+                await self._process_sse_event(
+                    current_event or "message", event_data, message_id
+                )
 
         except Exception as e:
             logger.error(f"Error processing SSE text: {e}")
